@@ -223,6 +223,14 @@ class ChannelActor:
                 table = {"target": 1}
             if not ch.supports_eom():
                 table["enable_eom"] = 0
+            if ch.addressing == "Local" and ch.mod_bandwidth and cs.slots and len(qids) >= 2 and table.get("target"):
+                # a pending fall time shorter than one clock period: a retarget now
+                # still has to wait for it
+                from .oracles.c02 import expected_fall_ends
+
+                left = max(expected_fall_ends(cs)) - cs.end
+                if 0 < left < ch.clock_period:
+                    table = dict(table, target=6 * sum(table.values()))
             kind = G.wpick(rng, table)
         if kind == "align" and not others:
             kind = "delay"
